@@ -360,6 +360,19 @@ def run_pipeline(case):
         return {"err": type(e).__name__, "msg": str(e)[:300]}
     st = build.assembly_stats
     extra = {}
+    if case.get("twice"):
+        # asking the same BuildAssembly for its fused assemblies a second time must give the same answer
+        def summary(o):
+            return ([(k, [(s.name, [A.obj_to_row(r) for r in s.rows]) for s in a.scaffolds]) for k, a in o.items()],
+                    st.cuts, st.breaks, st.joins)
+        first = summary(out)
+        try:
+            second = summary(build.assemblies_with_scaffolds_fused())
+            extra["second_call"] = None if second == first else {
+                "first": [first[1], first[2], first[3]], "second": [second[1], second[2], second[3]],
+                "rows_differ": second[0] != first[0]}
+        except Exception as e:
+            extra["second_call"] = {"err": type(e).__name__}
     extra["csv"] = [[k, st.chromosome_name_csv(a)] for k, a in out.items() if a.curated]
     if case.get("want_csv"):
         try:
